@@ -69,11 +69,22 @@ class Engine:
     def model_check(self, mc):
         cfg = mc.get("cfg_" + self.tier, mc.get("cfg"))
         t = time.time()
-        r = self.tlc(mc["tla"], cfg, workers=mc.get("workers", 8), timeout=mc.get("timeout", 1200),
-                     extra=["-coverage", "1"] + mc.get("extra", []))
+        extra = ["-coverage", "1"] + mc.get("extra", [])
+        workers = mc.get("workers", 8)
+        sim = mc.get("simulate")
+        if sim:
+            # random behaviours of the model (seeded) instead of exhaustive search
+            num = sim.get("num_" + self.tier, sim.get("num", 1000))
+            extra = ["-simulate", "num=%d" % num, "-depth", str(sim.get("depth", 100)), "-seed", str(self.seed)] + mc.get("extra", [])
+            workers = 1
+        r = self.tlc(mc["tla"], cfg, workers=workers, timeout=mc.get("timeout", 1200), extra=extra)
         out = r.stdout
         m = re.search(r"(\d+) states generated, (\d+) distinct states found", out)
         ok = ("Model checking completed. No error has been found." in out)
+        if sim:
+            ok = ("Error:" not in out) and ("traces generated" in out)
+            m = re.search(r"The number of states generated: (\d+)", out)
+            m = re.match(r"(\d+)(\d*)", (m.group(1) + " ") if m else "") and re.search(r"(\d+) states checked, (\d+) traces", out)
         if mc.get("expect_violation"):
             # a design variant that must NOT satisfy the invariant: shows the invariant is not vacuous
             ok = ("Invariant %s is violated" % mc["expect_violation"]) in out
@@ -82,7 +93,8 @@ class Engine:
         for a in re.finditer(r"^<(\w+) line \d+, col \d+ to line \d+, col \d+ of module \w+[^>]*>: (\d+):(\d+)", out, re.M):
             acts[a.group(1)] = acts.get(a.group(1), 0) + int(a.group(3))
         st = {"name": mc["name"], "spec": mc["tla"], "cfg": cfg, "ok": ok,
-              "states_generated": int(m.group(1)) if m else 0, "distinct_states": int(m.group(2)) if m else 0,
+              "states_generated": int(m.group(1)) if m else 0, "distinct_states": (0 if sim else int(m.group(2))) if m else 0,
+              "simulated_traces": int(m.group(2)) if (m and sim) else 0,
               "expected_violation": mc.get("expect_violation"), "actions_taken": acts, "never_taken": [a for a, c in acts.items() if c == 0],
               "replay_rows": len(replay_lines), "wall_s": round(time.time() - t, 1)}
         self.mc_stats.append(st)
@@ -171,6 +183,8 @@ class Engine:
                 elif ev == "reset":
                     s = e.get("s", {})
                     self.cov["scenario:%s/%s" % (s.get("framing", e.get("kind", "-")), s.get("faultKind", "-"))] += 1
+                elif ev == "wdsched":
+                    self.cov["wdsched:%s" % ("realised" if e.get("realised") else "not-realised")] += 1
                 elif ev == "tls":
                     self.cov["tls:%s/%s/%s" % (e.get("backend"), e.get("path"), e.get("res"))] += 1
                 elif ev == "happy":
